@@ -109,6 +109,8 @@ def glabel? : Sexp → Option (GLabel × GKind)
   | .list [.atom "emit", e, l] => do pure (.emit (← gevt? e l), .sent)
   | .list [.atom "span", e, l] => do pure (.span (← gevt? e l), .sent)
   | .list [.atom "rtemit", e, l] => do pure (.emit (← gevt? e l), .sent)
+  -- `emit::dbg!(id)`: an event of level debug through the shared runtime (no call-site filter can be given)
+  | .list [.atom "dbg", e] => do pure (.emit (← gevt? e (.atom "debug")), .sent)
   | .list [.atom "direct", e, l] => do pure (.direct (← gevt? e l), .sent)
   | .list [.atom "emitint", e, l] => do pure (.emitInternal (← gevt? e l), .sent)
   | .list [.atom "flush", t] => do pure (.flush (← t.nat?), .flush)
